@@ -133,6 +133,24 @@ CHECKS: dict[str, dict] = {
                         "whether the active gateway was already known", "a block-listed active gateway counts as unknown (the "
                         "library refuses to adopt it)"],
     },
+    "C12": {
+        "specs": [("disc", "main", 24, 2400)],
+        "budget": (240, 3000),
+        "rule": "one run = one drawn controller configuration (any subset of zones 00-0B up to max_zones, class radiator/"
+                "zone-valve/electric/mixing/UFH, sensor of every permitted type incl. the controller itself or a TRV that is "
+                "also an actuator, 0-8 actuators, DHW with any subset of sensor/hot-water valve/heating valve, appliance "
+                "control none/BDR/OTB) served by a scripted controller (sync cycle + RQ answers) to a real Gateway with "
+                "discovery on and no schema, for up to 49 virtual hours; 0005/000C replies are dropped with a drawn "
+                "probability during the first 2-60 minutes. Oracle every 10 virtual minutes: every fact in gwy.schema is in "
+                "the truth (sound), no learned fact disappears (monotone), and by fault window + 24.5 h the schema equals "
+                "the truth (fault-free: 20 min). distinct = distinct configurations; non-trivial = non-empty configuration",
+        "real": ["ramses_rf.Gateway with discovery", "entity_base._Discovery pollers", "system/heat.py, zones.py _handle_msg + schema",
+                 "dispatcher", "QoS send path + PortTransport", "parsers 0005/000C/..."],
+        "stub": STUB_RF + ["simrf.peers.SimController (written from the frame examples, independent of the library's builders)"],
+        "assumptions": ["MIN_INTER_WRITE_GAP is raised to 1.0 s (the top of its legal range) so that 49 virtual hours cost seconds",
+                        "actuator device types are those the library accepts as zone children (04: TRV, 13: BDR)",
+                        "a lost reply is recovered at the next 24 h polling round: that is what 'a later polling round' means here"],
+    },
 }
 
 
@@ -191,6 +209,11 @@ MANIFEST_TEXT["C10"] = {
     "text": "Seeded search over filter configurations x traffic classes on a real Gateway; a 6-line reference decides wanted/"
             "unwanted for receive and send, device creation is read from gwy.device_by_id.", "design_ref": "DESIGN.md 7/C10",
     "technique": _TECH, "note": "The reference was checked against _is_wanted_addrs on 90k random samples of the pinned tree (round 0)."}
+MANIFEST_TEXT["C12"] = {
+    "text": "Seeded search over controller configurations x reply-loss patterns; a scripted controller answers the real "
+            "discovery pollers for up to 49 virtual hours; soundness/monotonicity sampled every 10 virtual minutes and "
+            "bounded liveness after the faults stop.", "design_ref": "DESIGN.md 7/C12", "technique": _TECH,
+    "note": "Few but deep runs (about 5-10 s each); the write gap knob is at the top of its legal range."}
 NOT_APPLICABLE = {
     "C03": "pure function of constructor arguments (decode(build(args)) = args): no schedule, clock, fault, history or second "
            "party to simulate; exhaustive/argument-space enumeration is outside this technique (DESIGN.md 8)",
